@@ -378,3 +378,142 @@ Proof.
 Qed.
 
 End UstarOkDev.
+
+(* ------------------------------------------------------------------ strings of the ustar header *)
+Lemma ustar_field_padded : forall e tt o bs k ws1 ws2,
+  snd (ustar_fields e tt true) = ws1 ++ (o, bs) :: ws2 ->
+  Forall (away o (length bs)) ws2 ->
+  Forall (away (o + length bs) k) (snd (ustar_fields e tt true)) ->
+  (o + length bs + k <= USTAR_checksum_offset \/ USTAR_checksum_offset + 7 <= o) ->
+  slice o (length bs + k) (snd (ustar_header e tt true)) = bs ++ slice (o + length bs) k ustar_template.
+Proof.
+  intros e tt o bs k ws1 ws2 Heq Ha1 Ha2 Hck. rewrite slice_split.
+  rewrite (ustar_field_slice e tt o bs ws1 ws2 Heq Ha1) by lia.
+  rewrite ustar_untouched; [reflexivity | assumption | lia].
+Qed.
+
+Lemma ustar_name_writes_ok : forall pp, fst (ustar_name_writes pp) = 0%Z ->
+  (length pp <= USTAR_name_size /\ snd (ustar_name_writes pp) = [(USTAR_name_offset, pp)]) \/
+  (exists i, USTAR_name_size < length pp /\ ustar_split pp = Some i /\ S i < length pp /\ i <= USTAR_prefix_size /\
+             snd (ustar_name_writes pp) = [(USTAR_prefix_offset, firstn i pp); (USTAR_name_offset, skipn (S i) pp)]).
+Proof.
+  intros pp H. unfold ustar_name_writes in *.
+  destruct (length pp <=? USTAR_name_size) eqn:E.
+  - left. apply Nat.leb_le in E. split; [assumption | reflexivity].
+  - right. apply Nat.leb_gt in E.
+    destruct (ustar_split pp) as [i|] eqn:Es; [|cbn [fst] in H; pose proof ST_FAILED_nz; contradiction].
+    destruct (S i =? length pp) eqn:E2; [cbn [fst] in H; pose proof ST_FAILED_nz; contradiction|].
+    destruct (USTAR_prefix_size <? i) eqn:E3; [cbn [fst] in H; pose proof ST_FAILED_nz; contradiction|].
+    apply Nat.eqb_neq in E2. apply Nat.ltb_ge in E3.
+    pose proof (ustar_split_spec pp i E Es) as [S1 [S2 [S3 S4]]].
+    exists i. repeat split; try assumption; try lia.
+Qed.
+
+Lemma name_region_zero : slice USTAR_name_offset USTAR_name_size ustar_template = zeros USTAR_name_size.
+Proof. reflexivity. Qed.
+Lemma prefix_region_zero : slice USTAR_prefix_offset USTAR_prefix_size ustar_template = zeros USTAR_prefix_size.
+Proof. reflexivity. Qed.
+Lemma linkname_region_zero : slice USTAR_linkname_offset USTAR_linkname_size ustar_template = zeros USTAR_linkname_size.
+Proof. reflexivity. Qed.
+Lemma uname_region_zero : slice USTAR_uname_offset USTAR_uname_size ustar_template = zeros USTAR_uname_size.
+Proof. reflexivity. Qed.
+Lemma gname_region_zero : slice USTAR_gname_offset USTAR_gname_size ustar_template = zeros USTAR_gname_size.
+Proof. reflexivity. Qed.
+
+Lemma no_nul_firstn : forall n l, no_nul l -> no_nul (firstn n l).
+Proof. intros. unfold no_nul in *. apply Forall_firstn. assumption. Qed.
+Lemma no_nul_skipn : forall n l, no_nul l -> no_nul (skipn n l).
+Proof. intros. unfold no_nul in *. apply Forall_skipn. assumption. Qed.
+
+Lemma firstn_skipn_middle : forall i (l : list Z), i < length l ->
+  firstn i l ++ [nth i l 0%Z] ++ skipn (S i) l = l.
+Proof.
+  induction i; intros l H; destruct l as [|x t]; cbn [length] in H; try lia; cbn [firstn nth skipn app].
+  - reflexivity.
+  - f_equal. apply IHi. lia.
+Qed.
+
+Lemma last_byte_firstn : forall i (l : list Z), 0 < i -> i <= length l -> last_byte (firstn i l) = nth (i - 1) l 0%Z.
+Proof.
+  induction i; intros l H1 H2; [lia|].
+  destruct l as [|x t]; cbn [length] in H2; [lia|]. cbn [firstn]. unfold last_byte in *.
+  destruct i.
+  - cbn. reflexivity.
+  - replace (S (S i) - 1) with (S i) by lia. cbn [nth].
+    replace (last (x :: firstn (S i) t) 0%Z) with (last (firstn (S i) t) 0%Z).
+    + rewrite IHi by lia. f_equal. lia.
+    + destruct t; [cbn [length] in H2; lia|]. cbn [firstn last]. reflexivity.
+Qed.
+
+Section UstarOkStrings.
+Variable e : entry.
+Variable tt : Z.
+Hypothesis Hok : fst (ustar_header e tt true) = 0%Z.
+Let facts : ustar_ok_facts e tt := ustar_ok e tt Hok.
+Let h := snd (ustar_header e tt true).
+
+(* the pathname comes back from prefix and name, provided it has no NUL and the byte in front of the
+   separator chosen by the writer is not itself a '/' (the reader does not add a second one) *)
+Theorem ustar_ok_pathname :
+  no_nul (ob (e_path e)) ->
+  (forall i, ustar_split (ob (e_path e)) = Some i -> nth (i - 1) (ob (e_path e)) 0%Z <> slash) ->
+  ustar_join (slice R_tar_prefix_offset R_tar_prefix_size h) (slice R_tar_name_offset R_tar_name_size h) = ob (e_path e).
+Proof.
+  intros Hnn Hds. subst h. set (pp := ob (e_path e)) in *.
+  destruct (ustar_name_writes_ok pp (uf_name _ _ facts)) as [[Hlen Hw] | [i [Hlen [Hsp [Hi1 [Hi2 Hw]]]]]].
+  - (* short name: one write, prefix untouched *)
+    assert (Hname : slice USTAR_name_offset USTAR_name_size (snd (ustar_header e tt true)) = pp ++ zeros (USTAR_name_size - length pp)).
+    { replace USTAR_name_size with (length pp + (USTAR_name_size - length pp)) at 1 by lia.
+      rewrite (ustar_field_padded e tt USTAR_name_offset pp (USTAR_name_size - length pp) []
+                 (tl (snd (ustar_fields e tt true)))).
+      - f_equal. apply (slice_of_zero_region _ _ _ _ _ name_region_zero); unfold USTAR_name_offset; lia.
+      - unfold ustar_fields; cbv zeta; cbn [snd]. fold pp. rewrite Hw. reflexivity.
+      - unfold ustar_fields; cbv zeta; cbn [snd]. fold pp. rewrite Hw. cbn [app tl]. away_all.
+      - unfold ustar_fields; cbv zeta; cbn [snd]. fold pp. rewrite Hw. cbn [app]. away_all.
+      - leaf. }
+    assert (Hpre : slice USTAR_prefix_offset USTAR_prefix_size (snd (ustar_header e tt true)) = zeros USTAR_prefix_size).
+    { rewrite ustar_untouched; [apply prefix_region_zero | | leaf].
+      unfold ustar_fields; cbv zeta; cbn [snd]. fold pp. rewrite Hw. cbn [app]. away_all. }
+    change R_tar_prefix_offset with USTAR_prefix_offset. change R_tar_prefix_size with USTAR_prefix_size.
+    change R_tar_name_offset with USTAR_name_offset. change R_tar_name_size with USTAR_name_size.
+    rewrite Hpre, Hname. cbn [USTAR_prefix_size zeros repeat ustar_join]. change (0 =? 0)%Z with true. cbv iota.
+    apply cstr_app_zeros. assumption.
+  - (* split name *)
+    set (pre := firstn i pp) in *. set (nm := skipn (S i) pp) in *.
+    pose proof (ustar_split_spec pp i Hlen Hsp) as [S1 [S2 [S3 S4]]].
+    assert (Lpre : length pre = i) by (unfold pre; rewrite firstn_length; lia).
+    assert (Lnm : length nm = length pp - S i) by (unfold nm; apply skipn_length).
+    assert (Hname : slice USTAR_name_offset USTAR_name_size (snd (ustar_header e tt true)) = nm ++ zeros (USTAR_name_size - length nm)).
+    { replace USTAR_name_size with (length nm + (USTAR_name_size - length nm)) at 1 by (unfold USTAR_name_size in *; lia).
+      rewrite (ustar_field_padded e tt USTAR_name_offset nm (USTAR_name_size - length nm) [(USTAR_prefix_offset, pre)]
+                 (tl (tl (snd (ustar_fields e tt true))))).
+      - f_equal. apply (slice_of_zero_region _ _ _ _ _ name_region_zero); unfold USTAR_name_offset, USTAR_name_size in *; lia.
+      - unfold ustar_fields; cbv zeta; cbn [snd]. fold pp. rewrite Hw. reflexivity.
+      - unfold ustar_fields; cbv zeta; cbn [snd]. fold pp. rewrite Hw. cbn [app tl]. away_all.
+      - unfold ustar_fields; cbv zeta; cbn [snd]. fold pp. rewrite Hw. cbn [app]. away_all.
+      - leaf. }
+    assert (Hpre : slice USTAR_prefix_offset USTAR_prefix_size (snd (ustar_header e tt true)) = pre ++ zeros (USTAR_prefix_size - length pre)).
+    { replace USTAR_prefix_size with (length pre + (USTAR_prefix_size - length pre)) at 1 by lia.
+      rewrite (ustar_field_padded e tt USTAR_prefix_offset pre (USTAR_prefix_size - length pre) []
+                 (tl (snd (ustar_fields e tt true)))).
+      - f_equal. apply (slice_of_zero_region _ _ _ _ _ prefix_region_zero); unfold USTAR_prefix_offset; lia.
+      - unfold ustar_fields; cbv zeta; cbn [snd]. fold pp. rewrite Hw. reflexivity.
+      - unfold ustar_fields; cbv zeta; cbn [snd]. fold pp. rewrite Hw. cbn [app tl]. away_all.
+      - unfold ustar_fields; cbv zeta; cbn [snd]. fold pp. rewrite Hw. cbn [app]. away_all.
+      - leaf. }
+    change R_tar_prefix_offset with USTAR_prefix_offset. change R_tar_prefix_size with USTAR_prefix_size.
+    change R_tar_name_offset with USTAR_name_offset. change R_tar_name_size with USTAR_name_size.
+    rewrite Hpre, Hname.
+    assert (Hnpre : no_nul pre) by (apply no_nul_firstn; assumption).
+    assert (Hnnm : no_nul nm) by (apply no_nul_skipn; assumption).
+    destruct pre as [|c pre'] eqn:Epre; [cbn [length] in Lpre; lia|].
+    cbn [app ustar_join]. inversion Hnpre; subst.
+    destruct (c =? 0)%Z eqn:Ec; [apply Z.eqb_eq in Ec; contradiction|].
+    change (c :: pre' ++ zeros (USTAR_prefix_size - length (c :: pre'))) with ((c :: pre') ++ zeros (USTAR_prefix_size - length (c :: pre'))).
+    rewrite cstr_app_zeros by assumption. rewrite cstr_app_zeros by assumption.
+    rewrite <- Epre. unfold pre at 1. rewrite last_byte_firstn by lia.
+    specialize (Hds i Hsp). destruct (nth (i - 1) pp 0 =? slash)%Z eqn:El; [apply Z.eqb_eq in El; contradiction|].
+    rewrite <- S4. rewrite <- app_assoc. unfold pre, nm. apply firstn_skipn_middle. assumption.
+Qed.
+
+End UstarOkStrings.
